@@ -55,6 +55,10 @@ class C09Engine(Engine):
             if kind == "project":
                 if d["db"] not in (None, db):
                     return ("veto", "project in another db")
+                if m[db]["project"] == h:
+                    # setting the project that is set already: accepted or refused, either way it stays the
+                    # database's project and stays attached
+                    return ("unchanged", "add-project-again", DVE)
                 return ("accept", "add-project" + ("-replace" if m[db]["project"] not in (None, h) else ""))
             if d["db"] == db:
                 if kind == "sticky":
@@ -316,6 +320,12 @@ class C09Engine(Engine):
             self.commit(op)
             self.count("ok:" + e[1])
             status = "accepted"
+        elif e[0] == "unchanged":
+            if outcome is not None and exname not in e[2]:
+                raise Violation(self.prop, "outcome", {**ctx, "expected": e[2], "fault": e[1], "got": repr(outcome)[:200]},
+                                f"wrong-error:{e[1]}:{exname}")
+            self.count("fault:" + e[1] + (":accepted" if outcome is None else ":rejected"))
+            status = "accepted" if outcome is None else "rejected"
         elif e[0] == "reject":
             if outcome is None:
                 raise Violation(self.prop, "outcome", {**ctx, "expected": f"rejected ({e[1]})", "got": "accepted"},
